@@ -420,7 +420,7 @@ class Image:
         if isinstance(image.date, list):
             self.date = self.date + image.date
         else:
-            self.date.append(image.date)
+            self.date = self.date + [image.date]
 
         # Relative time - combine internal stored times
         if self._is_none(self.time) or self._is_none(image.time) or offset is None:
@@ -431,7 +431,7 @@ class Image:
             if isinstance(image.time, list):
                 time = time + [t + offset for t in image.time]
             else:
-                time.append(image.time + offset)
+                time = time + [image.time + offset]
 
         # Specs
         self.time_dim = 1
